@@ -232,12 +232,15 @@ def explain(proto, r):
     return "not allowed by the Lifecycle contract"
 
 
-def replay_and_validate(run, vh, behaviours, label):
+def replay_and_validate(run, vh, behaviours, label, confirm=True):
+    """first pass: 14 driver processes side by side; the behaviours TLC rejects are then run again one after the other in one
+    process (confirm=False) and only what is rejected again is reported: the driver works with real sockets and short waits,
+    a starved process must not turn into a verdict about the code"""
     if not behaviours:
         return
     payload = [{k: v for k, v in b.items() if k != "_abs"} for b in behaviours]
     crashes = []
-    tf = run.harness_parallel(vh, "lifecycle", payload, label, procs=14, crashes=crashes)
+    tf = run.harness_parallel(vh, "lifecycle", payload, label, procs=14 if confirm else 1, crashes=crashes)
     byid = {b["id"]: b for b in behaviours}
     for c in crashes:
         b = byid.get(c["behaviour"]["id"], c["behaviour"])
@@ -250,7 +253,15 @@ def replay_and_validate(run, vh, behaviours, label):
             continue
         pf = run.path("trace-%s-%s.ndjson" % (label, proto))
         open(pf, "w").write("".join(sub))
-        res = run.validate("LifecycleTrace", TRACE_CFG % dict(proto=proto, boxes=q(BOXES)), pf)
+        res = run.validate("LifecycleTrace", TRACE_CFG % dict(proto=proto, boxes=q(BOXES)), pf, max_rej=24 if confirm else len(behaviours) + 1)
+        if confirm and res["rejections"]:
+            again = [byid[r["trace"]] for r in res["rejections"] if r["trace"] in byid][:24]
+            run.log("%d %s schedule(s) rejected: running them again in isolation" % (len(again), proto))
+            before = len(run.violations)
+            replay_and_validate(run, vh, again, label + "-iso-" + proto, confirm=False)
+            run.cov["evaluations"] -= len(again)
+            run.cov["unreproduced_rejections"] = run.cov.get("unreproduced_rejections", 0) + len(again) - (len(run.violations) - before)
+            continue
         for r in res["rejections"]:
             b = byid.get(r["trace"], {})
             ev = r["rejected_event"]
